@@ -18,7 +18,8 @@ const (
 // control attributes.
 type URL url.URL
 
-var escapeRegexp = regexp.MustCompile(`^(.+?)://([^/?#]*?)@([^/?#]*)(.*)$`)
+// the first group is the scheme: it must not reach a "://" that lies in the path or in the query
+var escapeRegexp = regexp.MustCompile(`^([^:/?#]+)://([^/?#]*?)@([^/?#]*)(.*)$`)
 
 // ParseURL parses a RTSP URL.
 func ParseURL(s string) (*URL, error) {
